@@ -43,6 +43,11 @@ class Unit:
 
 def run_unit(rep, unit, cases, scratch, oracle_on_all=True):
     """Returns number of mismatches."""
+    import os
+    cp = "/verif/corpus/unit_%s.json" % unit.name
+    if os.path.exists(cp):             # minimised past failures run first
+        with open(cp) as fh:
+            cases = json.load(fh) + list(cases)
     results, terms = [], []
     impl_errors = 0
     for c in cases:
